@@ -1113,6 +1113,67 @@ class Engine:
             caller.unwind_to = None
             self.goto(st, caller, normal)
 
+    FSORT = {32: z3.Float32(), 64: z3.Float64()}
+
+    def to_fp(self, v):
+        if v.size() not in self.FSORT:
+            raise Unsupported("floating-point width %d" % v.size())
+        return z3.fpBVToFP(v, self.FSORT[v.size()])
+
+    def from_fp(self, r):
+        # fp.to_ieee_bv of a NaN is unspecified in z3: pin it to the canonical quiet NaN the hardware produces
+        n = r.sort().ebits() + r.sort().sbits()
+        qnan = {32: 0x7fc00000, 64: 0x7ff8000000000000}[n]
+        return z3.If(z3.fpIsNaN(r), BV(qnan, n), z3.fpToIEEEBV(r))
+
+    def fp_op(self, st, ins, a):
+        """IEEE-754 binary32/binary64 semantics through z3's floating-point theory (values are carried as their bit patterns;
+        round-to-nearest-even, the mode C++ code runs in unless it changes it). NaN results get the canonical quiet pattern
+        z3 picks, so callers must not compare NaN payloads."""
+        op = ins.op
+        if any(isinstance(x, list) for x in a):
+            raise Unsupported("vector floating point")
+        rne = z3.RNE()
+        if op == "fcmp":
+            x, y = self.to_fp(a[0]), self.to_fp(a[1])
+            pred = ins.extra
+            uno = z3.Or(z3.fpIsNaN(x), z3.fpIsNaN(y))
+            base = {"eq": z3.fpEQ(x, y), "gt": z3.fpGT(x, y), "ge": z3.fpGEQ(x, y), "lt": z3.fpLT(x, y), "le": z3.fpLEQ(x, y),
+                    "ne": z3.Not(z3.fpEQ(x, y))}
+            if pred == "true":
+                c = z3.BoolVal(True)
+            elif pred == "false":
+                c = z3.BoolVal(False)
+            elif pred == "ord":
+                c = z3.Not(uno)
+            elif pred == "uno":
+                c = uno
+            elif pred[0] == "o":
+                c = z3.And(z3.Not(uno), base[pred[1:]])
+            elif pred[0] == "u":
+                c = z3.Or(uno, base[pred[1:]])
+            else:
+                raise Unsupported("fcmp " + pred)
+            return z3.If(c, BV(1, 1), BV(0, 1))
+        if op == "fneg":
+            return a[0] ^ BV(1 << (a[0].size() - 1), a[0].size())
+        if op in ("fadd", "fsub", "fmul", "fdiv"):
+            x, y = self.to_fp(a[0]), self.to_fp(a[1])
+            r = {"fadd": z3.fpAdd, "fsub": z3.fpSub, "fmul": z3.fpMul, "fdiv": z3.fpDiv}[op](rne, x, y)
+            return self.from_fp(r)
+        tb = self.bits_of(ins.ty)
+        if op in ("fpext", "fptrunc"):
+            return self.from_fp(z3.fpFPToFP(rne, self.to_fp(a[0]), self.FSORT[tb]))
+        if op == "sitofp":
+            return self.from_fp(z3.fpSignedToFP(rne, a[0], self.FSORT[tb]))
+        if op == "uitofp":
+            return self.from_fp(z3.fpUnsignedToFP(rne, a[0], self.FSORT[tb]))
+        if op in ("fptosi", "fptoui"):
+            # out-of-range conversions are undefined in C++ (poison in LLVM): callers assume the operand in range
+            x = self.to_fp(a[0])
+            return (z3.fpToSBV if op == "fptosi" else z3.fpToUBV)(z3.RTZ(), x, z3.BitVecSort(tb))
+        raise Unsupported(op)
+
     def exec_ins(self, st, fr, ins):
         op = ins.op
         R = fr.regs
@@ -1137,6 +1198,10 @@ class Engine:
             a = self.val(fr, ins.args[0])
             b = self.val(fr, ins.args[1])
             R[ins.dst] = simp(z3.If(self.ICMP[ins.extra](a, b), BV(1, 1), BV(0, 1)))
+            fr.ip += 1
+            return None
+        if op == "fcmp" or op in ("fadd", "fsub", "fmul", "fdiv", "fneg", "fpext", "fptrunc", "sitofp", "uitofp", "fptosi", "fptoui"):
+            R[ins.dst] = simp(self.fp_op(st, ins, [self.val(fr, a) for a in ins.args]))
             fr.ip += 1
             return None
         if op in ("zext", "sext", "trunc", "bitcast", "inttoptr", "ptrtoint", "addrspacecast"):
